@@ -57,6 +57,43 @@ def handle (toks : List String) (impl : String) : Verdict :=
     | some b =>
       { model := some (Driver.CertShow.smsgLine b),
         oracle := if impl = "panic" then some "SignedMessage::decode or an accessor panicked" else none }
+  | ["cmsdr", ty, h] =>
+    -- the `strict = false` entry points decode in BER mode: the mode-parametrized model at ber = true
+    match (parseHex h).map (·.map UInt8.toNat) with
+    | none => badOp "hex"
+    | some b =>
+      { model := some (Driver.CertShow.cmsLineM true ty b),
+        oracle := if impl = "panic" then some "SignedObject / Roa / Aspa / Manifest ::decode(strict = false) or an accessor panicked" else none }
+  | ["smsgdr", h] =>
+    match (parseHex h).map (·.map UInt8.toNat) with
+    | none => badOp "hex"
+    | some b =>
+      { model := some (Driver.CertShow.smsgLineM true b),
+        oracle := if impl = "panic" then some "SignedMessage::decode(strict = false) or an accessor panicked" else none }
+  | ["csrd", ty, h] =>
+    match (parseHex h).map (·.map UInt8.toNat) with
+    | none => badOp "hex"
+    | some b =>
+      { model := some (Driver.CertShow.csrLine ty b),
+        oracle := if impl = "panic" then some "Csr::decode or an accessor panicked" else none }
+  | ["rtad", h] =>
+    match (parseHex h).map (·.map UInt8.toNat) with
+    | none => badOp "hex"
+    | some b =>
+      { model := some (Driver.CertShow.rtaLine b),
+        oracle := if impl = "panic" then some "Rta::decode or an accessor panicked" else none }
+  | ["tald", h] =>
+    match (parseHex h).map (·.map UInt8.toNat) with
+    | none => badOp "hex"
+    | some b =>
+      { model := some (Driver.CertShow.talLine b),
+        oracle := if impl = "panic" then some "Tal::read_named or an accessor panicked" else none }
+  | ["keyd", h] =>
+    match (parseHex h).map (·.map UInt8.toNat) with
+    | none => badOp "hex"
+    | some b =>
+      { model := some (Driver.CertShow.keyLine b),
+        oracle := if impl = "panic" then some "PublicKey::decode or an accessor panicked" else none }
   | _ => badOp "unknown op"
 
 end Driver.C04
